@@ -418,21 +418,6 @@ KNOWN = [
                 "compile the class",
         "witness": "a = { 'b'..'a' }",
     },
-    {
-        "key": "int-digit-limit",
-        "property": "C10",
-        "what": "key=int-digit-limit a slice index or repetition bound written with more than 4300 digits (leading zeros "
-                "included) is rejected with \"number too large\" whatever its value, because int() refuses the conversion; "
-                "PEEK[-000...01..] with 4300 zeros is valid pest (the index is -1)",
-        "witness": "a = { PEEK[-" + "0" * 4300 + "1..] }",
-    },
-    {
-        "key": "doc-comment-keeps-leading-blank",
-        "property": "C10",
-        "what": "key=doc-comment-keeps-leading-blank the optional blank after \"///\" or \"//!\" belongs to the marker in "
-                "pest (the doc text is inner_doc); the front end keeps it as the first character of the doc line",
-        "witness": '/// doc\na = { "x" }',
-    },
 ]
 
 
@@ -603,7 +588,12 @@ def special_texts() -> list[str]:
            "a={#t=", "a={b{", "a={b{1", "a={b{1,", "a={(", "a={(b", "a={!", "a={&", "a={b~", "a={b|", "a={|", "a={b}", "a={b}/", "a={b}/*",
            'a = { "\\u{110000}" }', 'a = { "\\u{D800}" }', "a = { '\\u{DFFF}'..'\\u{E000}' }", "a = { 'b'..'a' }", "a = { b }",
            'a = { "x" } a = { "y" }', 'ANY = { "x" }', "a = { ANY ~ EOI ~ SOI ~ #t = ASCII_DIGIT }", 'a = { "x"{' + "1" * 4301 + "} }",
-           "a = { PEEK[-" + "0" * 4300 + "1..] }", 'a = { "x"{' + "9" * 400 + "} }", "\ufeffa = { b }", "a = { b }\x00", "a = { \x0c b }",
+           "a = { PEEK[-" + "0" * 4300 + "1..] }", "a = { PEEK[-" + "0" * 4400 + "1.." + "0" * 4400 + "] }",
+           'a = { "x"{' + "0" * 4400 + "1} }", 'a = { "x"{' + "0" * 4400 + "} }", 'a = { "x"{' + "0" * 4400 + "2," + "0" * 4400 + "3} }",
+           "a = { PEEK[" + "9" * 4300 + "..] }", "a = { PEEK[" + "9" * 4301 + "..] }", "a = { PEEK[..-" + "0" * 50 + "9" * 4301 + "] }",
+           "/// doc\na = { b }", "///doc\na = { b }", "///  doc\na = { b }", "///\tdoc\na = { b }", "///\na = { b }", "/// \na = { b }",
+           "//! d\n//!d\n//!  d\n//!\t\n//!\na = { b }\n/// t", "/// \r\na = { b }", "///", "/// ", "///  ",
+           'a = { "x"{' + "9" * 400 + "} }", "\ufeffa = { b }", "a = { b }\x00", "a = { \x0c b }",
            "a = { b }\u2028", "a\u00e9 = { b }", "a = { \u00e9 }", 'a = { "\ud800" }', "a = { '\ud800'..'\udfff' }"]
     out += [base[:i] for i in range(len(base) + 1)]
     return out
@@ -795,7 +785,8 @@ def worker_c11(texts: list[str]):
 
 def compare_structure(text: str, pairs: str, parser):
     """None if the rules the front end built are what the text denotes; else (class, expected, observed).
-    class "doc-blank" = they are what the text denotes under the doc-comment-keeps-leading-blank convention."""
+    Doc lines are pest's inner_doc: the optional blank after "///" / "//!" belongs to the marker (the former
+    finding doc-comment-keeps-leading-blank, fixed by 77be14c, is now an ordinary "docs" violation)."""
     im = impl()
     try:
         with harness_recursion():
@@ -815,10 +806,6 @@ def compare_structure(text: str, pairs: str, parser):
     g_docs = (got_docs, {n: v[1] for n, v in got.items()})
     if e_docs == g_docs:
         return None
-    with harness_recursion():
-        kdocs, kexp = FM.denote(text, pairs, im.builtin_set, keep_blank=True)
-    if (kdocs, {n: v[1] for n, v in kexp.items()}) == g_docs:
-        return ("doc-blank", str(e_docs)[:300], str(g_docs)[:300])
     return ("docs", str(e_docs)[:400], str(g_docs)[:400])
 
 
@@ -888,8 +875,9 @@ def judge_c10(text: str, answer: str, answer_balanced):
             return "agree", None           # no such code point: nothing to build (pest fails too)
         if s in ("number_overflow", "number_too_large") and has_overflowing_number(text, pairs):
             return "agree", None           # pest's reader of the parse tree rejects it too
-        if s == "number_too_large" and re.search(r"\d{4301}", text):
-            return "known:int-digit-limit", None
+        # (since fix 6f76b47 leading zeros do not count towards int()'s digit limit: a number rejected as too
+        #  large has more than 4300 significant digits, hence overflows, and was answered above; anything
+        #  else falls through to rejects-valid — the former finding int-digit-limit)
         if s == "range_order" and has_reversed_range(text, pairs):
             return "known:reversed-range-rejected", None
         if answer_balanced() == "fail":
@@ -898,8 +886,6 @@ def judge_c10(text: str, answer: str, answer_balanced):
     cmp_ = compare_structure(text, pairs, r[1])
     if cmp_ is None:
         return "agree", None
-    if cmp_[0] == "doc-blank":
-        return "known:doc-comment-keeps-leading-blank", None
     return "violation:" + cmp_[0], {"expected": cmp_[1], "observed": cmp_[2]}
 
 
@@ -1145,7 +1131,8 @@ def run(out: Outcome) -> None:
             "samples": samples,
         }
         out.assumptions = [
-            "CPython's default recursion limit (1000) and default int string-conversion limit (4300 digits) are in force",
+            "CPython's default recursion limit (1000) and default int string-conversion limit (4300 digits, which since fix 6f76b47 "
+            "only a slice index with more than 4300 significant digits can reach) are in force",
             "'a line and column that exist' = the 1-based line / 0-based column PestGrammarError._error_context reports are those of the "
             "error token's offset, with str.splitlines line boundaries, the end of a text that is empty or ends with a line boundary "
             "being column 0 of a new last line",
